@@ -45,6 +45,11 @@ type GenOpts struct {
 	// objects are reached twice, with textually equal selections that differ in
 	// what their directives exclude. Doc.ClonedDirs counts them.
 	PCloneDirs float64
+	// KeyNameAlias makes every argument-less selection of Node.name answer
+	// under the response key "id" - the name of Node's (and Leaf's) key field -
+	// while the id fields themselves are always selected under another alias.
+	// Not to be combined with KeepPlainLeaf.
+	KeyNameAlias bool
 	// RootFields, when set, restricts the query root to these fields.
 	RootFields []string
 	// Mutation generates a mutation operation (root type Mutation).
@@ -215,6 +220,14 @@ func (g *generator) args(fd *FieldDesc) []Arg {
 // (so any two selection sets can be merged).
 func (g *generator) alias(name string, args []Arg) string {
 	at := argsText(args)
+	if g.o.KeyNameAlias {
+		switch {
+		case name == "name" && at == "":
+			return "id"
+		case name == "id":
+			return "id_k"
+		}
+	}
 	if at == "" && g.r.Intn(5) != 0 {
 		return ""
 	}
